@@ -29,6 +29,49 @@ pub struct OneShot {
     win_state: WinconBytes,
 }
 
+/// The one-shot iterators consumed partly by hand and finished through their bulk methods (Display / to_string /
+/// into_vec / a clone): the pieces taken so far plus the rest are the one-shot result.
+pub fn partly_consumed(data: &[u8], bytes_out: &[u8], str_out: Option<&[u8]>, tag: &str) -> Result<(), (String, String)> {
+    for k in 0..=6usize {
+        let mut it = anstream::adapter::strip_bytes(data);
+        let mut got: Vec<u8> = vec![];
+        let mut exhausted = false;
+        for _ in 0..k {
+            match it.next() {
+                Some(p) => got.extend_from_slice(p),
+                None => exhausted = true,
+            }
+        }
+        let mut via_clone = got.clone();
+        for p in it.clone() {
+            via_clone.extend_from_slice(p);
+        }
+        got.extend(it.into_vec());
+        if got != bytes_out || via_clone != bytes_out {
+            return Err((format!("{tag}:StrippedBytes:partly-consumed"), format!("{k} pieces taken with next(), the rest with into_vec()/a clone: {:?} / {:?} != {:?}", show(&got), show(&via_clone), show(&bytes_out))));
+        }
+        if let (Some(want), Ok(s)) = (str_out, std::str::from_utf8(data)) {
+            let mut it = anstream::adapter::strip_str(s);
+            let mut got = String::new();
+            for _ in 0..k {
+                if let Some(p) = it.next() {
+                    got.push_str(p);
+                }
+            }
+            let a = format!("{got}{}", it.to_string());
+            let b = format!("{got}{it}");
+            let c = format!("{got}{}", it.clone().collect::<Vec<_>>().concat());
+            if a.as_bytes() != want || b != a || c != a {
+                return Err((format!("{tag}:StrippedStr:partly-consumed"), format!("{k} pieces taken with next(), the rest with to_string()/Display/a clone: {:?} / {:?} / {:?} != {:?}", show(a.as_bytes()), show(b.as_bytes()), show(c.as_bytes()), show(want))));
+            }
+        }
+        if exhausted {
+            break;
+        }
+    }
+    Ok(())
+}
+
 pub fn one_shot(data: &[u8]) -> Result<OneShot, (String, String)> {
     let mut sb = StripBytes::new();
     let bytes_out: Vec<u8> = sb.strip_next(data).collect::<Vec<_>>().concat();
@@ -48,6 +91,7 @@ pub fn one_shot(data: &[u8]) -> Result<OneShot, (String, String)> {
         }
         Err(_) => None,
     };
+    partly_consumed(data, &bytes_out, str_out.as_deref(), "c03")?;
     let mut wb = WinconBytes::new();
     let mut win_out = vec![];
     flatten(wb.extract_next(data), &mut win_out);
@@ -122,6 +166,24 @@ pub fn check_partition(data: &[u8], cuts: &[usize], one: &OneShot, which: Which,
         if sb != one.bytes_state {
             probes += 1;
             probe_bytes(&sb, &one.bytes_state).map_err(|e| ("c03:StripBytes:final-state".to_string(), e))?;
+        }
+        // the same chunks through one StrippedBytes that is refilled with extend() (drained by iteration; the last
+        // chunk by iteration or by into_vec)
+        let mut it = anstream::adapter::strip_bytes(chunks[0]);
+        let mut out2 = Vec::with_capacity(data.len());
+        for (i, c) in chunks.iter().enumerate() {
+            if i > 0 {
+                it.extend(c);
+            }
+            if i + 1 < chunks.len() || cuts.len() % 2 == 1 {
+                for p in it.by_ref() {
+                    out2.extend_from_slice(p);
+                }
+            }
+        }
+        out2.extend(it.into_vec());
+        if out2 != one.bytes_out {
+            return Err(("c03:StrippedBytes:extend".into(), format!("chunks fed with extend(): {:?} != one-shot {:?}", show(&out2), show(&one.bytes_out))));
         }
     }
     if which.stream {
